@@ -1714,14 +1714,17 @@ class PyCdlib:
                                                 current_extent - part_start)
 
                 if self.isohybrid_mbr is not None:
-                    if enc.platform_id == 0xef:
+                    # Only a hybrid made for EFI (and Mac) has partitions that
+                    # describe the EFI sections.
+                    if enc.platform_id == 0xef and self.isohybrid_mbr.efi:
                         if num_seen_efi == 0:
                             self.isohybrid_mbr.update_efi(entry_extent,
                                                           enc.entry.sector_count,
                                                           self.pvd.space_size * self.logical_block_size)
                         elif num_seen_efi == 1:
-                            self.isohybrid_mbr.update_mac(entry_extent,
-                                                          enc.entry.sector_count)
+                            if self.isohybrid_mbr.mac:
+                                self.isohybrid_mbr.update_mac(entry_extent,
+                                                              enc.entry.sector_count)
                         else:
                             raise pycdlibexception.PyCdlibInternalError('Only expected two EFI sections')
                         num_seen_efi += 1
